@@ -149,6 +149,9 @@ type Conn struct {
 	jobList []func()
 
 	readEvents int32
+	// 1 while the open notification is being delivered, 2 when the
+	// connection has been closed meanwhile.
+	opening int32
 	// set when the peer has shut down while data is still unread: the
 	// asynchronous reading job reads until the end of the stream then.
 	readToEOF int32
@@ -1072,7 +1075,11 @@ func (c *Conn) closeWithErrorWithoutLock(err error) error {
 	}
 
 	if c.p != nil {
-		c.p.deleteConn(c)
+		// while the open notification is being delivered the close
+		// notification is left to addConn, which sends it afterwards.
+		if !atomic.CompareAndSwapInt32(&c.opening, 1, 2) {
+			c.p.deleteConn(c)
+		}
 	}
 
 	switch c.typ {
